@@ -1,8 +1,899 @@
-//! stub — to be implemented
-use crate::common::{Ctx, Report};
+//! C05 — a configuration survives every save / replay path unchanged.
+//!
+//! Direct lab on `sozu_command_lib::state::ConfigState`. Reachable states are built by random
+//! command histories (`cops::gen_history`), by a field-coverage builder and by a "large value"
+//! builder; each state S goes through the four real encode/replay paths:
+//!   (a) `produce_initial_state()` -> dispatch on a fresh state (worker bootstrap),
+//!   (b) `write_requests_to_file` -> the `load_state` read loop (fixed 200 000-byte `Buffer` +
+//!       `parse_several_requests`) -> dispatch,
+//!   (c) `write_initial_state_to_file` -> `read_initial_state_from_file` -> dispatch,
+//!   (d) `serde_json` of `sozu::command::upgrade::UpgradeData { state: S, .. }` and back.
+//! Oracle: no replayed command is rejected and the result equals S on every configuration map
+//! (`request_counts` ignored). S is also rebuilt from its objects in two shuffled insertion
+//! orders; the rebuilds must replay to the same configuration.
+//!
+//! The generators (`cgen`, `cops`) and the state comparison (`cmp`) are shared with C06 / C07.
 
-pub fn run(_ctx: &Ctx) -> Report {
-    let mut rep = Report::new("exploration", "not implemented");
-    rep.broken("check not implemented yet");
+pub mod cgen;
+pub mod cmp;
+pub mod cops;
+
+use std::{
+    collections::BTreeMap,
+    fs::File,
+    io::{Read, Seek, SeekFrom, Write},
+    sync::Mutex,
+};
+
+use serde_json::{Value, json};
+use sozu::command::upgrade::UpgradeData;
+use sozu_command_lib::{
+    buffer::fixed::Buffer,
+    config::Config,
+    parser::parse_several_requests,
+    proto::command::{
+        ActivateListener, AddCertificate, CertificateAndKey, ListenerType, ReplaceCertificate,
+        Request, SocketAddress, WorkerRequest, request::RequestType,
+    },
+    request::read_initial_state_from_file,
+    state::ConfigState,
+};
+
+use self::{
+    cgen::{CERT_FIXTURES, CHAIN_PEM, FRONT_ADDRS, G, Op, ops_json, req, req_json, sa, verb},
+    cmp::{Delta, Mode, compare, object_count, state_sizes},
+    cops::{Fx, apply, extend_history, fingerprint_hex, fixtures},
+};
+use crate::common::{Ctx, Report, Rng, guard, par_cases};
+
+// ---------------------------------------------------------------- helpers shared with C06/C07
+
+/// redirect fd 1 to /dev/null while alive (`write_initial_state_to_file` prints one line per
+/// call on stdout, which would drown the verdict lines)
+pub struct StdoutGag {
+    saved: i32,
+}
+
+impl StdoutGag {
+    pub fn new() -> StdoutGag {
+        let _ = std::io::stdout().flush();
+        unsafe {
+            let saved = libc::dup(1);
+            let null = libc::open(c"/dev/null".as_ptr(), libc::O_WRONLY);
+            if saved >= 0 && null >= 0 {
+                libc::dup2(null, 1);
+            }
+            if null >= 0 {
+                libc::close(null);
+            }
+            StdoutGag { saved }
+        }
+    }
+}
+
+impl Drop for StdoutGag {
+    fn drop(&mut self) {
+        let _ = std::io::stdout().flush();
+        unsafe {
+            if self.saved >= 0 {
+                libc::dup2(self.saved, 1);
+                libc::close(self.saved);
+            }
+        }
+    }
+}
+
+pub fn count_ops(rep: &mut Report, ops: &[Op]) {
+    for o in ops {
+        rep.obs(&format!("op:{}:{}", verb(&o.req), if o.ok { "accepted" } else { "rejected" }), 1);
+        if !o.ok {
+            rep.obs("rejected_ops", 1);
+        }
+    }
+}
+
+/// (context carrying the seed stored in the replay file, case numbers of its witnesses)
+pub fn replay_cases(ctx: &Ctx) -> Option<(Ctx, Vec<u64>)> {
+    let path = ctx.replay.as_ref()?;
+    let v: Value = serde_json::from_str(&std::fs::read_to_string(path).unwrap_or_default()).unwrap_or(Value::Null);
+    let mut c = ctx.clone();
+    if let Some(seed) = v["seed"].as_u64() {
+        c.seed = seed;
+    }
+    let cases = v["witnesses"]
+        .as_array()
+        .map(|a| a.iter().filter_map(|w| w["case"].as_u64()).collect())
+        .unwrap_or_default();
+    Some((c, cases))
+}
+
+fn tmpfile() -> std::io::Result<File> {
+    if std::path::Path::new("/dev/shm").is_dir() {
+        if let Ok(f) = tempfile::tempfile_in("/dev/shm") {
+            return Ok(f);
+        }
+    }
+    tempfile::tempfile()
+}
+
+// ---------------------------------------------------------------- the four paths
+
+struct Replayed {
+    state: ConfigState,
+    /// (index, verb, error) of replayed commands that were rejected
+    rejected: Vec<(usize, String, String)>,
+}
+
+fn replay<'a>(requests: impl Iterator<Item = &'a Request>) -> Replayed {
+    let mut state = ConfigState::new();
+    let mut rejected = Vec::new();
+    for (i, r) in requests.enumerate() {
+        if let Err(e) = state.dispatch(r) {
+            rejected.push((i, verb(r).to_owned(), e.to_string()));
+        }
+    }
+    Replayed { state, rejected }
+}
+
+/// what `bin/src/command/requests.rs::load_state` does with its buffer, minus the hub
+fn load_state_read_loop(file: &mut File) -> Result<Vec<WorkerRequest>, String> {
+    let mut out = Vec::new();
+    let mut buffer = Buffer::with_capacity(200000);
+    loop {
+        let previous = buffer.available_data();
+        match file.read(buffer.space()) {
+            Ok(n) => {
+                buffer.fill(n);
+            }
+            Err(e) => return Err(format!("Error reading the saved state file: {e}")),
+        }
+        if buffer.available_data() == 0 {
+            return Ok(out);
+        }
+        let mut offset = 0usize;
+        match parse_several_requests::<WorkerRequest>(buffer.data()) {
+            Ok((rest, requests)) => {
+                if !rest.is_empty() && previous == buffer.available_data() {
+                    return Err("Error consuming load state message".to_owned());
+                }
+                offset = buffer.data().len() - rest.len();
+                out.extend(requests);
+            }
+            Err(e) if e.is_incomplete() => {
+                if buffer.available_data() == buffer.capacity() {
+                    return Err("message too big, stopping parsing".to_owned());
+                }
+            }
+            Err(e) => return Err(format!("saved state parse error: {e:?}")),
+        }
+        buffer.consume(offset);
+    }
+}
+
+fn first_altered(a: &[WorkerRequest], b: &[WorkerRequest]) -> Option<(usize, String)> {
+    if a.len() != b.len() {
+        return Some((a.len().min(b.len()), "count".to_owned()));
+    }
+    a.iter().zip(b).position(|(x, y)| x != y).map(|i| (i, verb(&a[i].content).to_owned()))
+}
+
+struct CaseInfo<'a> {
+    case: u64,
+    kind: &'static str,
+    ops: &'a [Op],
+    at: usize,
+}
+
+fn witness(ctx: &Ctx, ci: &CaseInfo, path: &str, extra: Value) -> Value {
+    json!({"case": ci.case, "seed": ctx.seed, "kind": ci.kind, "checked_after_ops": ci.at, "path": path,
+           "detail": extra, "history": ops_json(&ci.ops[..ci.at.min(ci.ops.len())])})
+}
+
+/// judge one replayed state against S; returns the difference classes (for cross-path folding)
+fn judge(
+    ctx: &Ctx,
+    rep: &mut Report,
+    ci: &CaseInfo,
+    path: &str,
+    s: &ConfigState,
+    r: &Replayed,
+    report: bool,
+    strict_buckets: bool,
+) -> Vec<String> {
+    let mut classes = Vec::new();
+    for (i, v, e) in &r.rejected {
+        classes.push(format!("replay_rejected/{v}"));
+        if report {
+            rep.violation(
+                &format!("roundtrip/{path}/replay_rejected/{v}"),
+                &format!("replaying the commands generated from a reachable state: command #{i} ({v}) was rejected: {e}"),
+                witness(ctx, ci, path, json!({"command_index": i, "verb": v, "error": e})),
+            );
+        }
+    }
+    let deltas: Vec<Delta> = compare(s, &r.state, Mode::Strict);
+    let mut seen = Vec::new();
+    for d in &deltas {
+        if d.is_bucket_only() && !strict_buckets {
+            rep.obs(&format!("exempt:empty_bucket_not_replayed:{}", d.map), 1);
+            continue;
+        }
+        let class = d.class();
+        if seen.contains(&class) {
+            continue;
+        }
+        seen.push(class.clone());
+        classes.push(format!("state_differs/{class}"));
+        if report {
+            rep.violation(
+                &format!("roundtrip/{path}/state_differs/{class}"),
+                &format!("state replayed through path '{path}' differs from the original on map {} (key {}, {})", d.map, d.key, d.kind),
+                witness(ctx, ci, path, json!({"expected_is_left": true, "difference": d.to_json(),
+                    "all_differences": deltas.iter().take(8).map(|d| json!({"map": d.map, "key": d.key, "kind": d.kind, "fields": d.fields})).collect::<Vec<_>>()})),
+            );
+        }
+    }
+    if classes.is_empty() {
+        rep.obs(&format!("path:{path}:ok"), 1);
+    } else {
+        rep.obs(&format!("path:{path}:failed"), 1);
+    }
+    classes
+}
+
+fn check_paths(ctx: &Ctx, rep: &mut Report, ci: &CaseInfo, s: &ConfigState) {
+    let strict_buckets = ctx.opt_u64("strict_buckets", 0) == 1;
+    rep.obs("states_checked", 1);
+    rep.obs_max("objects_in_state", object_count(s) as u64);
+
+    // (a) in-memory bootstrap
+    let init = s.produce_initial_state();
+    rep.obs("commands_generated", init.requests.len() as u64);
+    rep.obs_max("commands_generated_per_state", init.requests.len() as u64);
+    let ra = replay(init.requests.iter().map(|w| &w.content));
+    let classes_a = judge(ctx, rep, ci, "bootstrap", s, &ra, true, strict_buckets);
+
+    // (b) JSON state file
+    match tmpfile() {
+        Err(e) => rep.inconclusive(&format!("cannot create temp file: {e}")),
+        Ok(mut file) => match s.write_requests_to_file(&mut file) {
+            Err(e) => rep.violation(
+                "roundtrip/state_file/write_failed",
+                &format!("write_requests_to_file failed: {e}"),
+                witness(ctx, ci, "state_file", json!({"error": e.to_string()})),
+            ),
+            Ok(count) => {
+                let _ = file.seek(SeekFrom::Start(0));
+                let mut all = Vec::new();
+                let _ = file.read_to_end(&mut all);
+                rep.obs_max("state_file_bytes", all.len() as u64);
+                let longest = all.split(|b| *b == 0).map(|c| c.len()).max().unwrap_or(0);
+                rep.obs_max("state_file_longest_record", longest as u64);
+                // independent whole-file parse
+                let whole = match parse_several_requests::<WorkerRequest>(&all) {
+                    Ok((rest, reqs)) if rest.is_empty() => Some(reqs),
+                    _ => None,
+                };
+                if whole.is_none() || whole.as_ref().map(|w| w.len()) != Some(count) {
+                    rep.violation(
+                        "roundtrip/state_file/parse_failed",
+                        "parse_several_requests could not parse back the whole file written by write_requests_to_file",
+                        witness(ctx, ci, "state_file", json!({"written": count, "parsed": whole.as_ref().map(|w| w.len()), "file_bytes": all.len()})),
+                    );
+                }
+                let _ = file.seek(SeekFrom::Start(0));
+                match load_state_read_loop(&mut file) {
+                    Err(e) => {
+                        rep.obs("path:state_file:failed", 1);
+                        if longest + 1 > 200000 {
+                            rep.obs("state_file_record_larger_than_load_buffer", 1);
+                            rep.violation(
+                                "roundtrip/state_file/load_state_buffer_exceeded",
+                                &format!("the load_state read loop (fixed 200000-byte buffer) cannot reload a state file whose longest record is {longest} bytes: {e}"),
+                                witness(ctx, ci, "state_file", json!({"error": e, "longest_record": longest, "file_bytes": all.len(), "whole_file_parse_ok": whole.is_some()})),
+                            );
+                        } else {
+                            rep.violation(
+                                "roundtrip/state_file/load_loop_failed",
+                                &format!("the load_state read loop failed on a file written by write_requests_to_file: {e}"),
+                                witness(ctx, ci, "state_file", json!({"error": e, "longest_record": longest, "file_bytes": all.len()})),
+                            );
+                        }
+                    }
+                    Ok(reqs) => {
+                        if longest + 1 > 200000 {
+                            rep.obs("state_file_record_larger_than_load_buffer", 1);
+                        }
+                        let altered = first_altered(&init.requests, &reqs);
+                        if let Some((i, v)) = &altered {
+                            rep.violation(
+                                &format!("roundtrip/state_file/requests_altered_by_encoding/{v}"),
+                                &format!("command #{i} read back from the state file differs from the command that was written"),
+                                witness(ctx, ci, "state_file", json!({"index": i, "written": init.requests.get(*i).map(|w| req_json(&w.content)), "read": reqs.get(*i).map(|w| req_json(&w.content)), "written_count": init.requests.len(), "read_count": reqs.len()})),
+                            );
+                        }
+                        let rb = replay(reqs.iter().map(|w| &w.content));
+                        // same commands as (a) => same outcome: reported once under (a)
+                        let classes_b = judge(ctx, rep, ci, "state_file", s, &rb, altered.is_some(), strict_buckets);
+                        if altered.is_none() && classes_b != classes_a {
+                            rep.violation(
+                                "roundtrip/state_file/nondeterministic_replay",
+                                "the same command list replayed twice gave different outcomes",
+                                witness(ctx, ci, "state_file", json!({"bootstrap": classes_a, "state_file": classes_b})),
+                            );
+                        }
+                    }
+                }
+            }
+        },
+    }
+
+    // (c) protobuf bootstrap blob
+    match tmpfile() {
+        Err(e) => rep.inconclusive(&format!("cannot create temp file: {e}")),
+        Ok(mut file) => match s.write_initial_state_to_file(&mut file) {
+            Err(e) => rep.violation(
+                "roundtrip/proto_blob/write_failed",
+                &format!("write_initial_state_to_file failed: {e}"),
+                witness(ctx, ci, "proto_blob", json!({"error": e.to_string()})),
+            ),
+            Ok(_) => {
+                let _ = file.seek(SeekFrom::Start(0));
+                match read_initial_state_from_file(&mut file) {
+                    Err(e) => {
+                        rep.obs("path:proto_blob:failed", 1);
+                        rep.violation(
+                            "roundtrip/proto_blob/decode_failed",
+                            &format!("read_initial_state_from_file failed on the blob written by write_initial_state_to_file: {e}"),
+                            witness(ctx, ci, "proto_blob", json!({"error": e.to_string()})),
+                        );
+                    }
+                    Ok(decoded) => {
+                        let altered = first_altered(&init.requests, &decoded.requests);
+                        if let Some((i, v)) = &altered {
+                            rep.violation(
+                                &format!("roundtrip/proto_blob/requests_altered_by_encoding/{v}"),
+                                &format!("command #{i} decoded from the protobuf blob differs from the command that was encoded"),
+                                witness(ctx, ci, "proto_blob", json!({"index": i, "written": init.requests.get(*i).map(|w| req_json(&w.content)), "read": decoded.requests.get(*i).map(|w| req_json(&w.content))})),
+                            );
+                        }
+                        let rc = replay(decoded.requests.iter().map(|w| &w.content));
+                        let classes_c = judge(ctx, rep, ci, "proto_blob", s, &rc, altered.is_some(), strict_buckets);
+                        if altered.is_none() && classes_c != classes_a {
+                            rep.violation(
+                                "roundtrip/proto_blob/nondeterministic_replay",
+                                "the same command list replayed twice gave different outcomes",
+                                witness(ctx, ci, "proto_blob", json!({"bootstrap": classes_a, "proto_blob": classes_c})),
+                            );
+                        }
+                    }
+                }
+            }
+        },
+    }
+
+    // (d) JSON upgrade payload
+    let data = UpgradeData {
+        command_socket_fd: 3,
+        config: Config::default(),
+        next_client_id: 1,
+        next_session_id: 2,
+        next_task_id: 3,
+        next_worker_id: 4,
+        workers: vec![],
+        state: s.clone(),
+        boot_generation: 1,
+    };
+    match serde_json::to_string(&data) {
+        Err(e) => {
+            rep.obs("path:upgrade_json:failed", 1);
+            rep.violation(
+                "roundtrip/upgrade_json/encode_failed",
+                &format!("serde_json::to_string(UpgradeData) failed: {e}"),
+                witness(ctx, ci, "upgrade_json", json!({"error": e.to_string()})),
+            );
+        }
+        Ok(text) => {
+            rep.obs_max("upgrade_json_bytes", text.len() as u64);
+            match serde_json::from_str::<UpgradeData>(&text) {
+                Err(e) => {
+                    rep.obs("path:upgrade_json:failed", 1);
+                    rep.violation(
+                        "roundtrip/upgrade_json/decode_failed",
+                        &format!("the JSON upgrade payload cannot be read back: {e}"),
+                        witness(ctx, ci, "upgrade_json", json!({"error": e.to_string()})),
+                    );
+                }
+                Ok(back) => {
+                    // the state is carried verbatim: strict equality, buckets included
+                    let rd = Replayed { state: back.state, rejected: vec![] };
+                    judge(ctx, rep, ci, "upgrade_json", s, &rd, true, true);
+                }
+            }
+        }
+    }
+}
+
+// ---------------------------------------------------------------- rebuilds
+
+/// S as commands derived from its public maps (not from `generate_requests`), in groups that
+/// must stay together; shuffled by the caller
+fn object_commands(s: &ConfigState, rng: &mut Rng, fx: &Fx) -> Vec<Vec<Request>> {
+    let mut groups: Vec<Vec<Request>> = Vec::new();
+    macro_rules! listeners {
+        ($map:expr, $add:path, $kind:expr) => {
+            for l in $map.values() {
+                let mut l = l.clone();
+                if l.active && rng.bool() {
+                    l.active = false;
+                    let address = l.address;
+                    groups.push(vec![
+                        req($add(l)),
+                        req(RequestType::ActivateListener(ActivateListener { address, proxy: $kind as i32, from_scm: false })),
+                    ]);
+                } else {
+                    groups.push(vec![req($add(l))]);
+                }
+            }
+        };
+    }
+    listeners!(s.http_listeners, RequestType::AddHttpListener, ListenerType::Http);
+    listeners!(s.https_listeners, RequestType::AddHttpsListener, ListenerType::Https);
+    listeners!(s.tcp_listeners, RequestType::AddTcpListener, ListenerType::Tcp);
+    listeners!(s.udp_listeners, RequestType::AddUdpListener, ListenerType::Udp);
+    for c in s.clusters.values() {
+        groups.push(vec![req(RequestType::AddCluster(c.clone()))]);
+    }
+    for b in s.backends.values().flatten() {
+        groups.push(vec![req(RequestType::AddBackend(b.clone().to_add_backend()))]);
+    }
+    for f in s.http_fronts.values() {
+        groups.push(vec![req(RequestType::AddHttpFrontend(f.clone().into()))]);
+    }
+    for f in s.https_fronts.values() {
+        groups.push(vec![req(RequestType::AddHttpsFrontend(f.clone().into()))]);
+    }
+    for f in s.tcp_fronts.values().flatten() {
+        groups.push(vec![req(RequestType::AddTcpFrontend(f.clone().into()))]);
+    }
+    for f in s.udp_fronts.values().flatten() {
+        groups.push(vec![req(RequestType::AddUdpFrontend(f.clone().into()))]);
+    }
+    for (addr, certs) in &s.certificates {
+        let address = SocketAddress::from(*addr);
+        for c in certs.values() {
+            if !c.names.is_empty() || c.get_overriding_names().map(|n| n.is_empty()).unwrap_or(true) {
+                groups.push(vec![req(RequestType::AddCertificate(AddCertificate { address, certificate: c.clone(), expired_at: None }))]);
+            } else {
+                // stored without names: only reachable through ReplaceCertificate
+                let present: Vec<String> = certs.values().map(fingerprint_hex).collect();
+                let dummy = fx.certs.iter().map(|i| &CERT_FIXTURES[*i]).find(|fx| {
+                    let d = CertificateAndKey { certificate: fx.cert.to_owned(), certificate_chain: vec![], key: String::new(), versions: vec![], names: vec!["d".to_owned()] };
+                    !present.contains(&fingerprint_hex(&d))
+                });
+                let Some(dummy) = dummy else { continue };
+                let d = CertificateAndKey { certificate: dummy.cert.to_owned(), certificate_chain: vec![], key: String::new(), versions: vec![], names: vec!["d".to_owned()] };
+                let old = fingerprint_hex(&d);
+                groups.push(vec![
+                    req(RequestType::AddCertificate(AddCertificate { address, certificate: d, expired_at: None })),
+                    req(RequestType::ReplaceCertificate(ReplaceCertificate { address, new_certificate: c.clone(), old_fingerprint: old, new_expired_at: None })),
+                ]);
+            }
+        }
+    }
+    groups
+}
+
+fn request_multiset(s: &ConfigState) -> Vec<String> {
+    let mut v: Vec<String> = s.produce_initial_state().requests.iter().map(|w| format!("{:?}", w.content)).collect();
+    v.sort();
+    v
+}
+
+fn check_rebuilds(ctx: &Ctx, rep: &mut Report, ci: &CaseInfo, s: &ConfigState, rng: &mut Rng) {
+    let fx = fixtures();
+    let reference = request_multiset(s);
+    // what S itself replays to (judged by check_paths); the rebuilds must replay to the same
+    let s_replayed = replay(s.produce_initial_state().requests.iter().map(|w| &w.content));
+    for round in 0..2 {
+        let mut groups = object_commands(s, rng, fx);
+        rng.shuffle(&mut groups);
+        let mut r = ConfigState::new();
+        let mut failed = false;
+        for q in groups.iter().flatten() {
+            if r.dispatch(q).is_err() {
+                failed = true;
+            }
+        }
+        if failed || !compare(s, &r, Mode::Loose).is_empty() {
+            // the harness could not rebuild S from its objects: nothing to judge
+            rep.obs("rebuild_not_equal_skipped", 1);
+            continue;
+        }
+        rep.obs("rebuild_equal", 1);
+        if !cmp::strictly_equal(s, &r) {
+            rep.obs("rebuild_equal_up_to_bucket_order_or_empty_buckets", 1);
+        }
+        let replayed = replay(r.produce_initial_state().requests.iter().map(|w| &w.content));
+        let deltas = compare(&s_replayed.state, &replayed.state, Mode::Loose);
+        if let Some(d) = deltas.first() {
+            rep.violation(
+                &format!("roundtrip/rebuild/replay_differs/{}", d.class()),
+                "the same configuration rebuilt in another insertion order replays to a different configuration",
+                witness(ctx, ci, "rebuild", json!({"round": round, "difference": d.to_json()})),
+            );
+        } else if request_multiset(&r) != reference {
+            rep.violation(
+                "roundtrip/rebuild/generated_commands_differ",
+                "two instances holding the same configuration (built in different orders) generate different command sets",
+                witness(ctx, ci, "rebuild", json!({"round": round})),
+            );
+        } else {
+            rep.obs("rebuild_replays_identically", 1);
+        }
+    }
+}
+
+// ---------------------------------------------------------------- field coverage
+
+static FIELD_CLASSES: Mutex<BTreeMap<String, [u64; 3]>> = Mutex::new(BTreeMap::new());
+
+/// proto default: false, 0, "", empty list/map, or a message whose fields are all absent/default
+fn zeroish(v: &Value) -> bool {
+    match v {
+        Value::Null => true,
+        Value::Bool(b) => !*b,
+        Value::Number(n) => n.as_u64() == Some(0),
+        Value::String(s) => s.is_empty(),
+        Value::Array(a) => a.is_empty(),
+        Value::Object(m) => m.values().all(zeroish),
+    }
+}
+
+fn classify(prefix: &str, v: &Value, acc: &mut BTreeMap<String, [u64; 3]>) {
+    let Some(o) = v.as_object() else { return };
+    for (k, v) in o {
+        let name = format!("{prefix}.{k}");
+        let class = match v {
+            Value::Null => 0,
+            v if zeroish(v) => 1,
+            _ => 2,
+        };
+        acc.entry(name.clone()).or_insert([0; 3])[class] += 1;
+        if let Value::Object(m) = v {
+            if !m.contains_key("ip") && !m.is_empty() && prefix.matches('.').count() < 2 && k != "tags" && k != "answers" {
+                classify(&name, v, acc);
+            }
+        }
+    }
+}
+
+fn record_field_classes(rep: &mut Report, s: &ConfigState) {
+    let mut acc = BTreeMap::new();
+    let j = |t: &dyn erased::Ser| t.to_json();
+    for l in s.http_listeners.values() { classify("HttpListenerConfig", &j(l), &mut acc); }
+    for l in s.https_listeners.values() { classify("HttpsListenerConfig", &j(l), &mut acc); }
+    for l in s.tcp_listeners.values() { classify("TcpListenerConfig", &j(l), &mut acc); }
+    for l in s.udp_listeners.values() { classify("UdpListenerConfig", &j(l), &mut acc); }
+    for c in s.clusters.values() { classify("Cluster", &j(c), &mut acc); }
+    for b in s.backends.values().flatten() {
+        classify("AddBackend", &j(&b.clone().to_add_backend()), &mut acc);
+    }
+    for f in s.http_fronts.values().chain(s.https_fronts.values()) {
+        let r: sozu_command_lib::proto::command::RequestHttpFrontend = f.clone().into();
+        classify("RequestHttpFrontend", &j(&r), &mut acc);
+    }
+    for f in s.tcp_fronts.values().flatten() {
+        let r: sozu_command_lib::proto::command::RequestTcpFrontend = f.clone().into();
+        classify("RequestTcpFrontend", &j(&r), &mut acc);
+    }
+    for f in s.udp_fronts.values().flatten() {
+        let r: sozu_command_lib::proto::command::RequestUdpFrontend = f.clone().into();
+        classify("RequestUdpFrontend", &j(&r), &mut acc);
+    }
+    let mut v6 = false;
+    let mut multi = false;
+    for (a, certs) in &s.certificates {
+        v6 |= a.is_ipv6() && !certs.is_empty();
+        multi |= certs.len() >= 2;
+        for c in certs.values() {
+            let mut v = j(c);
+            // PEM bodies are not interesting here
+            if let Some(o) = v.as_object_mut() {
+                o.remove("certificate");
+            }
+            classify("CertificateAndKey", &v, &mut acc);
+        }
+    }
+    if multi { rep.obs("states_with_several_certificates_on_one_address", 1); }
+    if v6 { rep.obs("states_with_certificates_on_ipv6", 1); }
+    if s.http_listeners.keys().chain(s.https_listeners.keys()).chain(s.tcp_listeners.keys()).chain(s.udp_listeners.keys()).any(|a| a.is_ipv6()) {
+        rep.obs("states_with_ipv6_listener", 1);
+    }
+    if !s.udp_listeners.is_empty() || s.udp_fronts.values().any(|v| !v.is_empty()) {
+        rep.obs("states_with_udp_objects", 1);
+    }
+    if s.clusters.values().any(|c| c.health_check.is_some()) {
+        rep.obs("states_with_health_check", 1);
+    }
+    if s.certificates.values().any(|m| m.is_empty()) || s.backends.values().any(|v| v.is_empty()) || s.tcp_fronts.values().any(|v| v.is_empty()) || s.udp_fronts.values().any(|v| v.is_empty()) {
+        rep.obs("states_with_empty_bucket", 1);
+    }
+    for (k, n) in &acc {
+        if k.matches('.').count() == 1 {
+            let msg = k.split('.').next().unwrap_or("");
+            rep.obs(&format!("fields:{msg}:absent"), n[0]);
+            rep.obs(&format!("fields:{msg}:zero_or_empty"), n[1]);
+            rep.obs(&format!("fields:{msg}:other"), n[2]);
+        }
+    }
+    let mut g = FIELD_CLASSES.lock().unwrap_or_else(|e| e.into_inner());
+    for (k, n) in acc {
+        let e = g.entry(k).or_insert([0; 3]);
+        for i in 0..3 {
+            e[i] += n[i];
+        }
+    }
+}
+
+mod erased {
+    use serde_json::Value;
+    pub trait Ser {
+        fn to_json(&self) -> Value;
+    }
+    impl<T: serde::Serialize> Ser for T {
+        fn to_json(&self) -> Value {
+            serde_json::to_value(self).unwrap_or(Value::Null)
+        }
+    }
+}
+
+// ---------------------------------------------------------------- cases
+
+fn big_string(n: usize) -> String {
+    let mut s = String::with_capacity(n + 64);
+    s.push_str("HTTP/1.1 503 Service Unavailable\r\nContent-Length: 0\r\n\r\n");
+    while s.len() < n {
+        s.push_str("0123456789abcdef0123456789abcdef0123456789abcdef0123456789abcde\n");
+    }
+    s
+}
+
+/// case numbers from here on are hand-written minimal scenarios (run before the random cases)
+pub const DIRECTED_BASE: u64 = 1 << 40;
+const DIRECTED: u64 = 3;
+
+pub fn fixture_cert(i: usize, names: &[&str]) -> CertificateAndKey {
+    let fx = fixtures();
+    let c = &CERT_FIXTURES[fx.certs[i % fx.certs.len()]];
+    CertificateAndKey {
+        certificate: c.cert.to_owned(),
+        certificate_chain: vec![],
+        key: c.key.to_owned(),
+        versions: vec![],
+        names: names.iter().map(|s| (*s).to_owned()).collect(),
+    }
+}
+
+fn directed(k: u64) -> Vec<cops::Cmd> {
+    let a = sa("127.0.0.1:443");
+    match k {
+        // certificate stored by ReplaceCertificate without explicit names
+        0 => {
+            let c0 = fixture_cert(0, &["x.example"]);
+            let old = fingerprint_hex(&c0);
+            vec![
+                (req(RequestType::AddCertificate(AddCertificate { address: a, certificate: c0, expired_at: None })), "AddCertificate".to_owned()),
+                (req(RequestType::ReplaceCertificate(ReplaceCertificate { address: a, new_certificate: fixture_cert(1, &[]), old_fingerprint: old, new_expired_at: None })), "ReplaceCertificate/existing_new_without_names".to_owned()),
+            ]
+        }
+        // one value just above the loader's buffer
+        1 => {
+            let mut rng = Rng::new(5);
+            let mut g = G::new(&mut rng, 0);
+            let mut c = g.cluster("big".to_owned(), 0);
+            c.answer_503 = Some(big_string(200_001));
+            vec![(req(RequestType::AddCluster(c)), "AddCluster/large_answer".to_owned())]
+        }
+        // the same, below the buffer (must pass)
+        _ => {
+            let mut rng = Rng::new(5);
+            let mut g = G::new(&mut rng, 0);
+            let mut c = g.cluster("big".to_owned(), 0);
+            c.answer_503 = Some(big_string(150_000));
+            vec![(req(RequestType::AddCluster(c)), "AddCluster/large_answer".to_owned())]
+        }
+    }
+}
+
+fn build_case(ctx: &Ctx, case: u64, rng: &mut Rng) -> (&'static str, ConfigState, Vec<Op>, Option<usize>) {
+    let fx = fixtures();
+    if case >= DIRECTED_BASE {
+        let mut st = ConfigState::new();
+        let mut ops = Vec::new();
+        for c in directed(case - DIRECTED_BASE) {
+            apply(&mut st, c, &mut ops);
+        }
+        return ("directed", st, ops, None);
+    }
+    let sel = rng.below(100);
+    let large_share = ctx.opt_u64("large_percent", 1);
+    let mut st = ConfigState::new();
+    let mut ops = Vec::new();
+    if sel < large_share || ctx.opt("kind") == Some("large") {
+        // a value larger than the loader's 200 000-byte buffer, around the boundary
+        let mut g = G::new(rng, 2);
+        extend_history(&mut g, &mut st, &mut ops, 6, fx);
+        let n = *g.rng.pick(&[150_000usize, 199_000, 201_000, 400_000]);
+        match g.rng.below(3) {
+            0 => {
+                let mut c = g.cluster("big".to_owned(), 0);
+                c.answer_503 = Some(big_string(n));
+                apply(&mut st, (req(RequestType::AddCluster(c)), "AddCluster/large_answer".to_owned()), &mut ops);
+            }
+            1 => {
+                let mut l = g.https_listener(sa("127.0.0.1:443"));
+                l.answers.insert("503".to_owned(), big_string(n));
+                apply(&mut st, (req(RequestType::AddHttpsListener(l)), "AddHttpsListener/large_answer".to_owned()), &mut ops);
+            }
+            _ => {
+                let mut c = g.cert(&fx.certs, 2);
+                let link = CHAIN_PEM.to_owned();
+                c.certificate_chain = std::iter::repeat(link.clone()).take(n / link.len().max(1) + 1).collect();
+                apply(&mut st, (req(RequestType::AddCertificate(AddCertificate { address: sa("[::1]:443"), certificate: c, expired_at: None })), "AddCertificate/large_chain".to_owned()), &mut ops);
+            }
+        }
+        return ("large_value", st, ops, None);
+    }
+    if sel < 30 {
+        // field coverage: one object of every type per address family, every optional field
+        // independently absent / default / non-default, several certificates per address
+        let density = 2 + (case % 4);
+        let mut g = G::new(rng, density);
+        g.oddities = case % 3 == 0;
+        for a in [FRONT_ADDRS[1], FRONT_ADDRS[3], FRONT_ADDRS[4]] {
+            let a = sa(a);
+            apply(&mut st, (req(RequestType::AddHttpListener(g.http_listener(a))), "AddHttpListener".to_owned()), &mut ops);
+            apply(&mut st, (req(RequestType::AddHttpsListener(g.https_listener(a))), "AddHttpsListener".to_owned()), &mut ops);
+            apply(&mut st, (req(RequestType::AddTcpListener(g.tcp_listener(a))), "AddTcpListener".to_owned()), &mut ops);
+            apply(&mut st, (req(RequestType::AddUdpListener(g.udp_listener(a))), "AddUdpListener".to_owned()), &mut ops);
+            for _ in 0..2 {
+                apply(&mut st, (req(RequestType::AddHttpFrontend(g.http_front(a))), "AddHttpFrontend".to_owned()), &mut ops);
+                apply(&mut st, (req(RequestType::AddHttpsFrontend(g.http_front(a))), "AddHttpsFrontend".to_owned()), &mut ops);
+            }
+            apply(&mut st, (req(RequestType::AddTcpFrontend(g.tcp_front(a))), "AddTcpFrontend".to_owned()), &mut ops);
+            apply(&mut st, (req(RequestType::AddUdpFrontend(g.udp_front(a))), "AddUdpFrontend".to_owned()), &mut ops);
+            let n_certs = g.rng.urange(2, 4);
+            for _ in 0..n_certs {
+                let c = g.cert(&fx.certs, 2);
+                apply(&mut st, (req(RequestType::AddCertificate(AddCertificate { address: a, certificate: c, expired_at: None })), "AddCertificate".to_owned()), &mut ops);
+            }
+        }
+        for _ in 0..4 {
+            let id = g.cluster_id();
+            let health = g.rng.below(2) as u8;
+            apply(&mut st, (req(RequestType::AddCluster(g.cluster(id, health))), "AddCluster".to_owned()), &mut ops);
+            for _ in 0..2 {
+                apply(&mut st, (req(RequestType::AddBackend(g.backend())), "AddBackend".to_owned()), &mut ops);
+            }
+        }
+        let extra = g.rng.urange(0, 12);
+        extend_history(&mut g, &mut st, &mut ops, extra, fx);
+        return ("field_coverage", st, ops, None);
+    }
+    let n_ops = rng.urange(1, ctx.tier.pick(60, 120));
+    let density = 1 + rng.below(3);
+    let mut g = G::new(rng, density);
+    extend_history(&mut g, &mut st, &mut ops, n_ops, fx);
+    let mid = if ops.len() >= 10 && g.rng.bool() { Some(g.rng.urange(3, ops.len() - 1)) } else { None };
+    ("history", st, ops, mid)
+}
+
+fn run_case(ctx: &Ctx, case: u64, rep: &mut Report) {
+    let mut rng = Rng::for_case(ctx.seed, 5, case);
+    let (kind, st, ops, mid) = build_case(ctx, case, &mut rng);
+    count_ops(rep, &ops);
+    rep.obs(&format!("cases:{kind}"), 1);
+    for o in &ops {
+        if o.ok {
+            match verb(&o.req) {
+                "UpdateHttpListener" | "UpdateHttpsListener" | "UpdateTcpListener" | "UpdateUdpListener" => rep.obs("listener_patch_accepted", 1),
+                "ReplaceCertificate" => rep.obs("certificate_replaced", 1),
+                "RemoveListener" | "RemoveCluster" | "RemoveBackend" | "RemoveHttpFrontend" | "RemoveHttpsFrontend" | "RemoveTcpFrontend" | "RemoveUdpFrontend" => rep.obs("removal_of_present_object", 1),
+                _ => {}
+            }
+        }
+    }
+    if let Some(mid) = mid {
+        // an intermediate state of the same history (rebuilt by replaying the accepted prefix)
+        let mut s = ConfigState::new();
+        for o in &ops[..mid] {
+            let _ = s.dispatch(&o.req);
+        }
+        let ci = CaseInfo { case, kind, ops: &ops, at: mid };
+        check_paths(ctx, rep, &ci, &s);
+    }
+    let ci = CaseInfo { case, kind, ops: &ops, at: ops.len() };
+    check_paths(ctx, rep, &ci, &st);
+    record_field_classes(rep, &st);
+    if kind != "large_value" && kind != "directed" {
+        check_rebuilds(ctx, rep, &ci, &st, &mut rng);
+    }
+    let sizes = state_sizes(&st);
+    let shape: Vec<u8> = ops.iter().flat_map(|o| [crate::common::rng::fnv1a(verb(&o.req).as_bytes()) as u8, o.ok as u8]).collect();
+    rep.case_bytes(&shape, object_count(&st) >= 3);
+    if case < 3 {
+        rep.sample(json!({"case": case, "kind": kind, "ops": ops.len(), "accepted": ops.iter().filter(|o| o.ok).count(), "final_state_sizes": sizes,
+            "first_ops": ops.iter().take(5).map(|o| json!({"label": o.label, "ok": o.ok})).collect::<Vec<_>>()}));
+    }
+}
+
+pub fn run(ctx: &Ctx) -> Report {
+    let mut rep = Report::new(
+        "exploration",
+        "reachable ConfigStates built by (70 %) random histories of 1..60 commands over every mutating verb with valid/invalid arguments, duplicates, removals and listener patches on a collision-rich alphabet, (29 %) a field-coverage builder (every object type on IPv4 and IPv6 addresses, each optional field independently absent / present-with-default / non-default, 2-4 certificates per address) and (1 %) states holding one value around the 200 000-byte load buffer; each final state (and one intermediate state of half of the histories) goes through the four encode/replay paths and is rebuilt twice from its objects in shuffled order; a case is non-trivial when its final state holds >= 3 objects; distinct = distinct (verb, accepted) sequences",
+    );
+    rep.assume("the load_state read loop is mirrored from bin/src/command/requests.rs (same Buffer type, capacity, parser and consume logic) because the function itself needs a live CommandHub; the hub-level run belongs to the hub lab");
+    rep.assume("an empty Vec/HashMap bucket left by a removal (or by a rejected AddCertificate) holds no listener, frontend, backend or certificate: its disappearance on replay is counted (exempt:empty_bucket_not_replayed:*) and not judged, unless --opt strict_buckets=1; path (d) carries the state verbatim and is compared strictly");
+    rep.assume("paths (b) and (c) are judged on their own only when the decoded command list differs from the encoded one; otherwise their replay is the replay of (a) and a difference is reported once, under 'bootstrap'");
+    for k in [
+        "path:bootstrap:ok",
+        "path:state_file:ok",
+        "path:proto_blob:ok",
+        "path:upgrade_json:ok",
+        "rebuild_equal",
+        "rejected_ops",
+        "listener_patch_accepted",
+        "certificate_replaced",
+        "removal_of_present_object",
+        "states_with_several_certificates_on_one_address",
+        "states_with_certificates_on_ipv6",
+        "states_with_ipv6_listener",
+        "states_with_udp_objects",
+        "states_with_health_check",
+    ] {
+        rep.require(k);
+    }
+    let fx = fixtures();
+    rep.set("certificate_fixtures", json!({"usable": fx.certs.iter().map(|i| CERT_FIXTURES[*i].name).collect::<Vec<_>>(), "pem_but_not_x509_variants": fx.not_x509.len()}));
+    if fx.certs.len() < 4 {
+        rep.broken("fewer than 4 usable certificate fixtures");
+        return rep;
+    }
+    let gag = StdoutGag::new();
+    if let Some((rctx, cases)) = replay_cases(ctx) {
+        for c in cases {
+            if let Err(p) = guard(|| run_case(&rctx, c, &mut rep)) {
+                rep.broken(&format!("panic while replaying case {c}: {} at {}", p.message, p.location));
+            }
+        }
+        drop(gag);
+        return rep;
+    }
+    for k in 0..DIRECTED {
+        if let Err(p) = guard(|| run_case(ctx, DIRECTED_BASE + k, &mut rep)) {
+            if p.in_sozu() {
+                rep.violation(&p.signature(), &format!("sozu panicked: {} at {}", p.message, p.location), json!({"case": DIRECTED_BASE + k, "seed": ctx.seed}));
+            } else {
+                rep.broken(&format!("harness panic in directed case {k}: {} at {}", p.message, p.location));
+            }
+        }
+    }
+    let n = ctx.opt_u64("cases", ctx.tier.pick(10_000, 400_000));
+    par_cases(ctx, &mut rep, n, |i, r| run_case(ctx, i, r));
+    drop(gag);
+
+    let g = FIELD_CLASSES.lock().unwrap_or_else(|e| e.into_inner());
+    let optional: Vec<(&String, &[u64; 3])> = g.iter().filter(|(_, n)| n[0] > 0).collect();
+    let all3 = optional.iter().filter(|(_, n)| n.iter().all(|x| *x > 0)).count();
+    rep.obs("field_names_seen", g.len() as u64);
+    rep.obs("optional_fields_seen", optional.len() as u64);
+    rep.obs("optional_fields_seen_absent_and_default_and_nondefault", all3 as u64);
+    rep.require("optional_fields_seen_absent_and_default_and_nondefault");
+    rep.set("optional_fields_missing_a_class", json!(optional.iter().filter(|(_, n)| n.iter().any(|x| *x == 0)).map(|(k, _)| (*k).clone()).collect::<Vec<_>>()));
+    rep.set(
+        "field_classes",
+        Value::Object(g.iter().map(|(k, n)| (k.clone(), json!({"absent": n[0], "zero_or_empty": n[1], "other": n[2]}))).collect()),
+    );
     rep
 }
